@@ -93,8 +93,37 @@ class Poly:
     def div(self, o: "Poly") -> Optional["Poly"]:
         inv = o.inv_monomial()
         if inv is None:
-            return None
+            return self.exact_div(o)
         return self * inv
+
+    def exact_div(self, o: "Poly") -> Optional["Poly"]:
+        """q with self == q * o for a multi-term divisor (multivariate long division under a graded order); None when it does not divide."""
+        if o.is_zero() or len(o.t) < 2:
+            return None
+        syms = sorted(self.symbols() | o.symbols())
+
+        def vec(m):
+            d = dict(m)
+            return tuple(d.get(x, 0) for x in syms)
+
+        def key(m):
+            v = vec(m)
+            return (sum(v), v)
+        if any(e < 0 for m in list(self.t) + list(o.t) for _, e in m):
+            return None
+        lo = max(o.t, key=key)
+        q, r = Poly(), Poly(dict(self.t))
+        for _ in range(64):
+            if r.is_zero():
+                return q
+            lr = max(r.t, key=key)
+            dv = tuple(a - b for a, b in zip(vec(lr), vec(lo)))
+            if any(x < 0 for x in dv):
+                return None
+            term = Poly({tuple((x, e) for x, e in zip(syms, dv) if e): r.t[lr] / o.t[lo]})
+            q = q + term
+            r = r - term * o
+        return None
 
     def pow(self, n: int) -> "Poly":
         if n < 0:
